@@ -272,6 +272,8 @@ theorem noteLabel_sty (h0 : Q []) (s s' : DC) (x : Xml) (k : String) (h : Sty Q 
   split at he
   · have := pure_ok he; subst this; exact h
   · obtain ⟨id, _, he⟩ := bind_ok he
+    obtain ⟨s0, hfl, he⟩ := bind_ok he
+    have h := flushImplicit_preserves (P := Sty Q) concludePar_sty s s0 _ h hfl
     have := pure_ok he; subst this
     refine ⟨h.tree, h.open_, ?_⟩
     intro r hr
